@@ -1,7 +1,7 @@
 (* C09 — proofs about the exclude test: pathspec as CBI uses it (Model/C09.v)
    against git's semantics (Spec/C09.v), and the laws of the matcher. *)
 From Coq Require Import Bool Arith Ascii String List Lia.
-From CBI Require Import Lib.Res Lib.Data Lib.C09_glob Model.C09 Spec.C09.
+From CBI Require Import Lib.Res Lib.Data Lib.C09_glob Model.C09 Spec.C09 Proofs.C09p.
 Import ListNotations.
 
 (* ---------- small facts ---------- *)
@@ -323,7 +323,8 @@ Theorem contains_eq_member fs cb r ps :
 Proof.
   intros Hc1 Hc2 Hd Hg. unfold contains_resolved, member_resolved.
   destruct (lookup fs r) as [[| |]|] eqn:Hl; try reflexivity.
-  destruct (negb (is_source_file r)); [reflexivity|].
+  pose proof (has_language_eq r) as Hh.
+  destruct (has_language r); destruct (is_source_file r); try discriminate Hh; cbn [negb]; [|reflexivity].
   rewrite (find_root_strict_eq fs _ _ Hd Hl).
   destruct (find_root (cb_roots cb) r) as [root|] eqn:Hf; [|reflexivity].
   rewrite Hc1, Hc2. destruct (Hg root eq_refl) as (G1 & G2).
